@@ -6,4 +6,7 @@ var All = map[string]func(*Ctx){
 	"C02": C02,
 	"C03": C03,
 	"C04": C04,
+	"C05": C05,
+	"C06": C06,
+	"C07": C07,
 }
